@@ -1,6 +1,7 @@
 package main
 
 import (
+	"github.com/z7zmey/php-parser/pkg/ast"
 	"strings"
 	"github.com/z7zmey/php-parser/verifmc/astx"
 	"github.com/z7zmey/php-parser/verifmc/core"
@@ -104,6 +105,14 @@ func c10One(c *core.Ctx, cs srcCase) {
 	if l, w := astx.Diff(r5.Root, r7.Root, true); l != "" {
 		if strings.HasPrefix(l, "list length") {
 			l += " (" + w + ")"
+		}
+		if strings.HasSuffix(l, "ScalarHeredoc.CloseHeredocTkn") {
+			for _, n := range astx.PreOrder(r7.Root) {
+				if h, ok := n.(*ast.ScalarHeredoc); ok && len(h.Parts) == 0 {
+					l += " of a heredoc without body"
+					break
+				}
+			}
 		}
 		c.Report("trees differ (5.6 vs 7.4): "+l, mkWhat("%s in %q", w, cs.Src), cs)
 	}
